@@ -86,7 +86,7 @@ def add_measurements(net, g, n):
     for _ in range(n):
         kind = g.C(["bus", "bus", "line", "trafo", "trafo3w", "el", "el"])
         try:
-            if kind == "bus":
+            if kind == "bus" and len(net.bus):
                 pp.create_measurement(net, g.C(["v", "p", "q"]), "bus", g.R(0.9, 1.1), 0.01, _pick(g, net.bus.index)[0])
             elif kind == "line" and len(net.line):
                 li = _pick(g, net.line.index)[0]
@@ -124,6 +124,8 @@ def add_costs(net, g, n):
 def add_groups(net, g, n, tag):
     for k in range(n):
         ets = [e for e in GROUP_ETS if len(net[e])]
+        if not ets:
+            return
         ets = [ets[i] for i in g.rng.choice(len(ets), size=min(len(ets), g.I(1, 4)), replace=False)]
         refcol = g.B(0.35)
         members = []
@@ -230,9 +232,12 @@ def rich_net(seed, tag="A", small=False, facts=0.25, results=0.5):
     net = netgen.rnd_net(seed, profile, ov)
     with_res = g.B(results)
     if with_res:
+        import copy
+        trial = copy.deepcopy(net)
         try:
-            pp.runpp(net)
-        except Exception:  # noqa - result tables are optional decoration
+            pp.runpp(trial)
+            net = trial
+        except Exception:  # noqa - result tables are optional decoration (a failed runpp may leave auxiliary rows behind)
             pass
     add_switches(net, g)
     add_char_tables(net, g)
